@@ -3,7 +3,7 @@ From Coq Require Import String List Bool Arith NArith.
 Local Open Scope string_scope.
 Local Open Scope list_scope.
 Import ListNotations.
-Require Import PyStr Line Matcher Ast Builder CellsSpec.
+Require Import PyStr Line Matcher Ast Builder CellsSpec Table TableFacts.
 
 (* the tokens (unescaped pipe, escape pair, plain character, lone final backslash) partition the row *)
 Theorem C12_lex_partition : forall row, raws (lex row) = row.
@@ -52,3 +52,15 @@ Example C12_example :
   table_cells (make_line (s2l "  | a\|b | \n x\\ |  |\q | trailing") 3)
   = [(5%nat, s2l "a|b"); (12%nat, [10; 32; 120; 92]%N); (22%nat, []); (23%nat, s2l "\q")].
 Proof. vm_compute. reflexivity. Qed.
+
+(* which rows belong to one table is the transition table's business: in every state that reads the rows after the
+   first (data tables and examples tables, at least five such states), a blank line and a comment are built and the
+   state kept, so rows separated by blank lines or comments are rows of one table ... *)
+Theorem C12_rows_of_one_table : rows_stay = true.
+Proof. exact rows_stay_ok. Qed.
+Print Assumptions C12_rows_of_one_table.
+
+(* ... and the generated table has the transitions of every sibling implementation's generated parser *)
+Theorem C12_reference_table : siblings_agree = true.
+Proof. exact siblings_agree_ok. Qed.
+Print Assumptions C12_reference_table.
